@@ -124,10 +124,39 @@ func endpointScenario(k int) {
 					bind.Addr = wire.AddrA6
 				}
 			}
-			e := s.ep.Bind(bind, nil)
-			tr("#%d %s/%s bind %v:%d -> %v", s.id, s.tr, s.fam, []byte(bind.Addr), bind.Port, e)
+			// binds that fail after the port was reserved: an address that is not local (plain or
+			// v4-mapped), or a commit callback that refuses. Whatever they reserved must be given back.
+			var commit func() *tcpip.Error
+			how := ""
+			switch r.Intn(8) {
+			case 0:
+				how = " (address not local)"
+				other := tcpip.Address("\x0a\x00\x00\x63")
+				if s.fam == "v4" {
+					bind.Addr = other
+				} else if s.fam == "dual" && r.Bool() {
+					bind.Addr = "\x00\x00\x00\x00\x00\x00\x00\x00\x00\x00\xff\xff" + other
+				} else {
+					bind.Addr = "\xfd\x00\x00\x00\x00\x00\x00\x00\x00\x00\x00\x00\x00\x00\x00\x63"
+				}
+			case 1:
+				how = " (commit refuses)"
+				commit = func() *tcpip.Error { return tcpip.ErrNoBufferSpace }
+			}
+			e := s.ep.Bind(bind, commit)
+			tr("#%d %s/%s bind %v:%d%s -> %v", s.id, s.tr, s.fam, []byte(bind.Addr), bind.Port, how, e)
 			if e != nil {
+				if bind.Port != 0 {
+					used[bind.Port] = true // part of the final "everything was given back" sweep
+				}
+				if how != "" {
+					run.Count("endpoint_binds_failing_after_reservation", 1)
+				}
 				continue
+			}
+			if how != "" {
+				viol("bind-that-must-fail-succeeded", fmt.Sprintf("socket #%d: bind %v:%d%s succeeded", s.id, []byte(bind.Addr), bind.Port, how))
+				break
 			}
 			s.bound, s.addr = true, bind.Addr
 			if la, e2 := s.ep.GetLocalAddress(); e2 == nil {
